@@ -419,16 +419,15 @@ class ActionLink(Action):
                     graph.add_edge(source_action.dest, target)
                 targets.add(target)
 
-            # Add instantiation target prefixes as edges
-            targets = sorted(targets, key=lambda x: len(split_key(x)))
-            seen_targets = {targets[0]}
-            for target in targets[1:]:
+            # Add instantiation target prefixes as edges: a nested target is built before every enclosing component in the graph
+            for target in sorted(targets, key=lambda x: len(split_key(x))):
                 parts = [x.replace("|", ".") for x in target.replace("init_args.", "init_args|").split(".")]
                 for num in range(len(parts) - 1):
                     target_prefix = ".".join(parts[: num + 1])
-                    if target_prefix in seen_targets:
-                        graph.add_edge(target, target_prefix)
-                seen_targets.add(target)
+                    if target_prefix in graph.nodes:
+                        nested = graph.nodes.index(target) in graph.edges_dict[graph.nodes.index(target_prefix)]
+                        if not nested:  # (a link within one component: applied while that component is being built)
+                            graph.add_edge(target, target_prefix)
 
             return graph.get_topological_order()
         return []
